@@ -139,7 +139,8 @@ def build(spec, _opts=None, **extra_kwargs):
     cls, n, block = spec["cls"], int(spec["n"]), bool(spec["block"])
     nan = spec.get("nan")
     f64 = np.float64
-    val = {"nan": math.nan, "inf": math.inf, "-inf": -math.inf}[nan["val"]] if nan else math.nan
+    # "big": a FINITE value whose square overflows (no NaN stop may be triggered by it)
+    val = {"nan": math.nan, "inf": math.inf, "-inf": -math.inf, "big": 1e200, "-big": -3e250}[nan["val"]] if nan else math.nan
 
     def crafted(who, **kw):
         if nan and nan["who"] == who:
